@@ -221,6 +221,10 @@ func runC12(c *Ctx) {
 					}
 				}
 				c.Check(direct && op == "++", "C12.2-census-total", name, ad.stmt.Pos(), "every observed pod is counted, unconditionally", "the total is not counted unconditionally per observed pod")
+			} else if op == "--" {
+				// the total is the bound of the ready counter, and the ready counter is never taken back outside the
+				// census: the total may come down only for a pod the census cannot have counted as ready
+				c.totalLoweredForUnreadyPodOnly(r, ad.stmt, at, st, name)
 			}
 		}
 		// a census counts up
@@ -442,6 +446,29 @@ func (c *Ctx) afterSuccessfulWrite(r *Reconcile, inc ast.Node, field, op, name s
 	}
 	c.Check(!aE.StateBefore(inc).Reachable(), "C12.1-adjustment-follows-write", name, inc.Pos(), "unreachable when the preceding "+wantKind+" failed",
 		"the counter is adjusted even when the preceding "+wantKind+" returned an error")
+}
+
+// totalLoweredForUnreadyPodOnly: status.replicas-- outside the census stands after the delete of a pod that the
+// facts show not to be Running, so the census has not counted it as ready and readyReplicas <= replicas survives.
+func (c *Ctx) totalLoweredForUnreadyPodOnly(r *Reconcile, stmt, at ast.Node, st gf.State, name string) {
+	const rule = "C12.1-total-lowered-for-an-unready-pod-only"
+	var prev *ast.CallExpr
+	for _, w := range c.podWrites(r) {
+		if w.kind == "delete" && w.call.Pos() < at.Pos() && (prev == nil || w.call.Pos() > prev.Pos()) &&
+			innermostLoop(r.FI.Decl.Body, w.call) == innermostLoop(r.FI.Decl.Body, at) {
+			prev = w.call
+		}
+	}
+	if prev == nil {
+		c.Bad(rule, name, stmt.Pos(), "the total is lowered with no pod delete before it in the same loop")
+		return
+	}
+	f := c.Want(r.Fn, prev.Pos(), `$1.Status.Phase != "Running"`, prev.Args[1])
+	if good, wit := st.Implies(f); good {
+		c.OK(rule, name, stmt.Pos(), "facts imply "+f.String()+": the census did not count this pod as ready")
+	} else {
+		c.Bad(rule, name, stmt.Pos(), "status.replicas is lowered for "+types.ExprString(prev.Args[1])+", which may be Running and Ready: the census counted it in readyReplicas, nothing takes it out again, and the status written has readyReplicas > replicas (and the completion rule may fire for a pass that saw an old or unready pod); facts on one path: "+clip(wit, 400))
+	}
 }
 
 func isIfInit(body *ast.BlockStmt, as *ast.AssignStmt) bool {
